@@ -24,7 +24,8 @@ ASSUMPTIONS = ["identifier texts passed to the public store() are unique unless 
 
 USERS = ["alice", "bob"]
 SPS = ["https://sp1.example.org/md", "https://sp2.example.org/md"]
-SPS_WIDE = SPS + ["https://sp3.example.org/md", ""]      # "" = no SP qualifier (random histories and the unqualified family)
+# "" = no SP qualifier (random histories and the unqualified family); the last two contain / are contained in the first SP's identifier
+SPS_WIDE = SPS + ["https://sp3.example.org/md", "", "https://sp1.example.org/md/portal", "https://sp1.example.org"]
 NQ = "https://idp.example.org/md"
 
 
@@ -107,6 +108,16 @@ class Harness(object):
         if nid.format != self.TRANS or (nid.sp_name_qualifier or "") != sp:
             raise Violation("C18/wrong-identifier-shape", "transient for %s/%s came back as %r" % (u, sp, fields_of(nid)))
         self._issued(u, nid)
+
+    def op_lookup(self, u, sp, fmt):
+        """find_nameid with a filter (what Server does to reuse an identifier): exactly the live identifiers of that user with those fields"""
+        got = sorted(fields_of(n) for n in self.db.find_nameid(u, sp_name_qualifier=sp, format=fmt))
+        want = sorted(tuple(x["fields"]) for x in self.m.live if x["user"] == u and (x["fields"][1] or "") == sp and x["fields"][2] == fmt)
+        self.hit("filtered_lookups")
+        key = lambda t: tuple(v or "" for v in t)
+        if sorted(got, key=key) != sorted(want, key=key):
+            raise Violation("C18/filtered-lookup-disagrees", "find_nameid(%r, sp_name_qualifier=%r, format=%s): %r, issued and live with those fields: %r" % (
+                u, sp, fmt.split(":")[-1], got, want))
 
     def op_persistent(self, u, sp):
         have = [x for x in self.m.live if x["user"] == u and x["fields"][2] == self.PERS and (x["fields"][1] or "") == sp and x["fields"][0] == NQ]
@@ -257,6 +268,8 @@ def alphabet(h, sps=SPS):
             ops.append(("transient", u, sp))
             ops.append(("persistent", u, sp))
             ops.append(("construct", u, sp, h.PERS))
+            if sp:
+                ops.append(("lookup", u, sp, h.PERS))
         ops.append(("remove_local", u))
     n = len(h.m.live)
     for k in range(n):
